@@ -104,6 +104,13 @@ add("C20", "property-based testing with a relation-table oracle + Hypothesis Rul
     "Guarded divisions (value 0 where the denominator vanishes) are taken as documented behaviour; pickling only for name-importable window/scheduler.",
     "DESIGN.md section 6 C20")
 
+add("C17", "model-based stateful testing (Hypothesis RuleBasedStateMachine) of request histories against a single-request model, a same-seed twin and a scipy.signal.lfilter reference cascade",
+    "Each run consumes a generator of a drawn class and parameter set through a drawn history of get_series(n) calls (sizes 0 and 1 heavily weighted) or get_sample runs "
+    "crossing the prefetch buffer; after every step the concatenated stream must equal a fresh instance's single request, the same-seed twin, and (coloured noise) the "
+    "section-by-section lfilter cascade on the same white stream including the discarded settling prefix.",
+    "One access mode per run (mixing get_sample and get_series is not claimed); streams up to 3e4 samples; fmin>=fs/2000 so that settling is cheap.",
+    "DESIGN.md section 6 C17")
+
 MANIFEST = {
     "version": 1,
     "setup_cmd": "/venv/bin/python -m harness.setup",
